@@ -224,6 +224,8 @@ func (p namePolicy) String() string {
 	return s + "; of two definitions of a name the last counts"
 }
 
+var acceptMemo = map[string]bool{}
+
 type nameScope struct {
 	defs []nameDef
 	pol  namePolicy
@@ -292,11 +294,19 @@ func newNameScope(defs []nameDef, pol namePolicy) *nameScope {
 		if seqAsArgument(inl, false) {
 			return true // no inline form to ask the built-in table with
 		}
+		// whether the built-in table accepts a text is a function of the text (funclib.Additional is empty here)
+		text := inl.Print(0)
+		if a, have := acceptMemo[text]; have {
+			return a
+		}
 		accepted := false
 		catch(func() {
-			_, errs := funclib.NewKeyBuilderEx(false).Compile(inl.Print(0))
+			_, errs := funclib.NewKeyBuilderEx(false).Compile(text)
 			accepted = errs == nil
 		})
+		if len(acceptMemo) < 1<<16 {
+			acceptMemo[text] = accepted
+		}
 		return accepted
 	}
 	if !pol.global {
